@@ -8,6 +8,7 @@ import (
 	"go/ast"
 	"go/token"
 	"go/types"
+	"regexp"
 	"strings"
 	"text/template/parse"
 
@@ -29,6 +30,9 @@ func checkC01(ctx *Ctx, r *Report) {
 	c01NullableRead(ctx, r)
 	c01NumberKinds(ctx, r)
 	c01UnionTemplates(ctx, r)
+	c01TypeNameClauses(ctx, r)
+	c01SiblingReplacements(ctx, r)
+	c01LoopLocalResult(ctx, r)
 }
 
 func checkC11(ctx *Ctx, r *Report) {
@@ -37,6 +41,11 @@ func checkC11(ctx *Ctx, r *Report) {
 	r.Exhaustive = true
 	c11PythonWire(ctx, r)
 	c11FromJSON(ctx, r)
+	c11DecodingMapComplete(ctx, r)
+	c11EncoderTruthiness(ctx, r)
+	c11ComprehensionVar(ctx, r)
+	// the Go side of the omission agreement
+	c01GoWireNames(ctx, r)
 }
 
 // ---------------------------------------------------------------------------
@@ -648,3 +657,380 @@ func c11FromJSON(ctx *Ctx, r *Report) {
 
 var _ = types.Universe
 var _ *packages.Package
+
+// ---------------------------------------------------------------------------
+// rules added after the independent seeds for C01 / C11
+
+// c01TypeNameClauses: in a switch over JSON type names of a JSON-family front-end, the clause for "integer" builds
+// integer kinds only and the clause for "number" float kinds only — a clause that lists both and builds one kind merges them.
+func c01TypeNameClauses(ctx *Ctx, r *Report) {
+	intKinds := map[string]bool{"KindInt8": true, "KindInt16": true, "KindInt32": true, "KindInt64": true, "KindUint8": true, "KindUint16": true, "KindUint32": true, "KindUint64": true}
+	floatKinds := map[string]bool{"KindFloat32": true, "KindFloat64": true}
+	n := 0
+	for _, rel := range []string{"internal/jsonschema", "internal/openapi"} {
+		p := ctx.Pkg(rel)
+		if p == nil {
+			continue
+		}
+		for _, f := range p.Syntax {
+			var fn string
+			ast.Inspect(f, func(m ast.Node) bool {
+				if fd, ok := m.(*ast.FuncDecl); ok {
+					fn = fd.Name.Name
+				}
+				cc, ok := m.(*ast.CaseClause)
+				if !ok {
+					return true
+				}
+				// clauses of a switch over type *names* (strings), not of a Go type switch
+				if len(cc.List) == 0 {
+					return true
+				}
+				if b, ok := p.TypesInfo.TypeOf(cc.List[0]).(*types.Basic); !ok || b.Info()&types.IsString == 0 {
+					return true
+				}
+				hasInt, hasNum := false, false
+				for _, e := range cc.List {
+					s := strings.ToLower(exprString(e))
+					if strings.HasSuffix(s, "integer") {
+						hasInt = true
+					}
+					if strings.HasSuffix(s, "number") {
+						hasNum = true
+					}
+				}
+				if !hasInt && !hasNum {
+					return true
+				}
+				var kinds []string
+				for _, st := range cc.Body {
+					ast.Inspect(st, func(k ast.Node) bool {
+						if s, ok := k.(*ast.SelectorExpr); ok && (intKinds[s.Sel.Name] || floatKinds[s.Sel.Name]) {
+							kinds = append(kinds, s.Sel.Name)
+						}
+						return true
+					})
+				}
+				if len(kinds) == 0 {
+					return true // the clause delegates (walkNumber / walkInteger are checked on their own)
+				}
+				n++
+				bad := ""
+				for _, k := range kinds {
+					if hasInt && floatKinds[k] {
+						bad = "the clause for \"integer\" builds " + k
+					}
+					if hasNum && intKinds[k] {
+						bad = "the clause for \"number\" builds " + k
+					}
+				}
+				r.Check(bad == "", "kinds/number-kind-agreement", fmt.Sprintf("%s.%s clause %s", rel, fn, exprString(cc.List[0])), cc.Pos(), "integer → integer kind, number → float kind",
+					fmt.Sprintf("%s.%s: %s: integers beyond 2^53 lose precision when decoded into float64 (or fractional numbers do not fit an integer field)", rel, fn, bad))
+				return true
+			})
+		}
+	}
+	r.Count("type-name clauses building number kinds", n)
+	r.Floor("type-name clauses building number kinds", 2)
+}
+
+// c01SiblingReplacements: within one function, the replacements built by the same constructor call (same printed
+// arguments) set Nullable under the same condition.
+func c01SiblingReplacements(ctx *Ctx, r *Report) {
+	p := ctx.Pkg("internal/ast/compiler")
+	if p == nil {
+		return
+	}
+	info := p.TypesInfo
+	nullableF := astField(ctx, "Type", "Nullable")
+	n := 0
+	for _, f := range p.Syntax {
+		for _, d := range f.Decls {
+			fd, ok := d.(*ast.FuncDecl)
+			if !ok || fd.Body == nil {
+				continue
+			}
+			fobj, _ := info.Defs[fd.Name].(*types.Func)
+			parents := parentMap(fd)
+			// constructor text -> list of nullable treatments
+			groups := map[string][]string{}
+			pos := map[string]token.Pos{}
+			ast.Inspect(fd.Body, func(m ast.Node) bool {
+				as, ok := m.(*ast.AssignStmt)
+				if !ok || as.Tok != token.DEFINE || len(as.Lhs) != 1 || len(as.Rhs) != 1 {
+					return true
+				}
+				c, ok := as.Rhs[0].(*ast.CallExpr)
+				if !ok {
+					return true
+				}
+				fn := callee(info, c)
+				if fn == nil || fn.Pkg() == nil || fn.Pkg().Path() != astPkgPath || fn.Name() != "NewRef" {
+					return true
+				}
+				id, ok := as.Lhs[0].(*ast.Ident)
+				if !ok {
+					return true
+				}
+				refObj := objOf(info, id)
+				blk, ok := parents[ast.Node(as)].(*ast.BlockStmt)
+				if !ok {
+					return true
+				}
+				var treat []string
+				ast.Inspect(blk, func(k ast.Node) bool {
+					a2, ok := k.(*ast.AssignStmt)
+					if !ok || a2.Pos() < as.Pos() {
+						return true
+					}
+					for i, l := range a2.Lhs {
+						if s, ok := ast.Unparen(l).(*ast.SelectorExpr); ok && fieldOf(info, s) == nullableF && isIdentOf(info, s.X, refObj) && i < len(a2.Rhs) {
+							t := exprString(a2.Rhs[i])
+							for _, ce := range enclosingConds(parents, a2) {
+								if ce.stmt.Pos() > as.Pos() {
+									t += " if " + exprString(ce.stmt.Cond)
+								}
+							}
+							treat = append(treat, t)
+						}
+					}
+					return true
+				})
+				key := exprString(c)
+				groups[key] = append(groups[key], strings.Join(treat, "; "))
+				pos[key] = as.Pos()
+				return true
+			})
+			for key, ts := range groups {
+				if len(ts) < 2 {
+					continue
+				}
+				n++
+				same := true
+				for _, t := range ts {
+					if t != ts[0] {
+						same = false
+					}
+				}
+				r.Check(same, "siblings/replacement-agreement", fmt.Sprintf("%s replacements %s", ctx.FuncName(fobj), key), pos[key], "every occurrence sets Nullable the same way ("+ts[0]+")",
+					fmt.Sprintf("%s builds the same replacement %s at %d places and sets its Nullable differently (%s): the second occurrence of a type is treated differently from the first — e.g. a union containing null keeps its nullability only where its struct is first generated", ctx.FuncName(fobj), key, len(ts), strings.Join(ts, " | ")))
+			}
+		}
+	}
+	r.Count("functions building one replacement at several places", n)
+	r.Floor("functions building one replacement at several places", 1)
+}
+
+// c01LoopLocalResult: in the strict decoder template, the variable that receives a nested decode inside an emitted loop
+// is declared inside that loop (a variable shared by all iterations accumulates the elements of earlier entries).
+func c01LoopLocalResult(ctx *Ctx, r *Report) {
+	ts, err := loadTemplates(ctx, "golang")
+	if err != nil {
+		return
+	}
+	tree := ts.trees[recStrict.define]
+	if tree == nil {
+		r.Undecided("anchor lost: template %q", recStrict.define)
+		return
+	}
+	n := 0
+	var visit func(l *parse.ListNode)
+	visit = func(l *parse.ListNode) {
+		if l == nil {
+			return
+		}
+		loopAt := -1
+		for i, nd := range l.Nodes {
+			if tx, ok := nd.(*parse.TextNode); ok && i+2 < len(l.Nodes) {
+				if loopHeadRe.MatchString(strings.TrimRight(string(tx.Text), " ")) {
+					if nx, ok := l.Nodes[i+2].(*parse.TextNode); ok && strings.HasPrefix(strings.TrimLeft(string(nx.Text), " "), ":= range") {
+						loopAt = i
+					}
+				}
+			}
+			switch x := nd.(type) {
+			case *parse.IfNode:
+				visit(x.List)
+				visit(x.ElseList)
+			case *parse.RangeNode:
+				visit(x.List)
+			case *parse.WithNode:
+				visit(x.List)
+			case *parse.TemplateNode:
+				if x.Name != recStrict.define || loopAt < 0 {
+					continue
+				}
+				into := strings.TrimSpace(dictArgs(x.Pipe)["UnmarshalInto"])
+				if !strings.HasPrefix(into, "$") {
+					continue
+				}
+				n++
+				// where is `var {{ $into }}` emitted?
+				declAt := -1
+				for j, nd2 := range l.Nodes {
+					if tx, ok := nd2.(*parse.TextNode); ok && strings.HasSuffix(strings.TrimRight(string(tx.Text), " "), "var") && j+1 < len(l.Nodes) {
+						if an, ok := l.Nodes[j+1].(*parse.ActionNode); ok && strings.TrimSpace(an.Pipe.String()) == into {
+							declAt = j
+						}
+					}
+				}
+				r.Check(declAt > loopAt, "skeleton/loop-local-result", fmt.Sprintf("%s: %s declared inside its loop", recStrict.define, into), token.NoPos, "declared after the loop header, once per iteration",
+					fmt.Sprintf("%s: the variable %s that receives the nested decode is not declared inside the emitted loop: every iteration decodes into the same variable, so slices / maps of later entries start with the elements of earlier ones", ts.posOf(ctx, recStrict.define, x), into))
+			}
+		}
+	}
+	visit(tree.Root)
+	r.Count("nested decodes inside emitted loops of the strict decoder", n)
+	r.Floor("nested decodes inside emitted loops of the strict decoder", 2)
+}
+
+// c11DecodingMapComplete: python disjunctionFromJSON puts every discriminator value of the mapping into the decoding
+// map: the only `continue` of the loop over the mapping's keys is the one for the catch-all entry.
+func c11DecodingMapComplete(ctx *Ctx, r *Report) {
+	p := ctx.Pkg("internal/jennies/python")
+	if p == nil {
+		return
+	}
+	var fd *ast.FuncDecl
+	for _, f := range p.Syntax {
+		for _, d := range f.Decls {
+			if x, ok := d.(*ast.FuncDecl); ok && x.Name.Name == "disjunctionFromJSON" {
+				fd = x
+			}
+		}
+	}
+	if fd == nil {
+		r.Undecided("anchor lost: python.RawTypes.disjunctionFromJSON")
+		return
+	}
+	parents := parentMap(fd)
+	var loop *ast.RangeStmt
+	ast.Inspect(fd.Body, func(m ast.Node) bool {
+		if rs, ok := m.(*ast.RangeStmt); ok && loop == nil && strings.Contains(strings.ToLower(exprString(rs.X)), "discriminator") {
+			loop = rs
+		}
+		return true
+	})
+	if loop == nil {
+		r.Undecided("anchor changed: no loop over the discriminator values in python.RawTypes.disjunctionFromJSON")
+		return
+	}
+	bad := ""
+	fills := false
+	ast.Inspect(loop.Body, func(m ast.Node) bool {
+		switch x := m.(type) {
+		case *ast.BranchStmt:
+			if x.Tok == token.CONTINUE || x.Tok == token.BREAK {
+				okSkip := false
+				for _, ce := range enclosingConds(parents, x) {
+					if strings.Contains(exprString(ce.stmt.Cond), "DiscriminatorCatchAll") && !ce.inElse {
+						okSkip = true
+					}
+				}
+				if !okSkip {
+					bad = "an entry can be skipped at " + ctx.Pos(x.Pos())
+				}
+			}
+		case *ast.AssignStmt:
+			if len(x.Lhs) == 1 && strings.Contains(exprString(x.Lhs[0]), "decodingMap") {
+				if len(enclosingConds(parents, x)) == 0 || true {
+					conds := 0
+					for _, ce := range enclosingConds(parents, x) {
+						if ce.stmt.Pos() > loop.Pos() {
+							conds++
+						}
+					}
+					if conds == 0 {
+						fills = true
+					}
+				}
+			}
+		}
+		return true
+	})
+	if !fills && bad == "" {
+		bad = "the decoding map is no longer filled unconditionally in the loop"
+	}
+	r.Check(bad == "", "traverse/decoding-map-complete", "python disjunctionFromJSON decoding map", loop.Pos(), "every discriminator value except the catch-all gets an entry",
+		"python.RawTypes.disjunctionFromJSON: "+bad+": a discriminator value the mapping declares has no entry in the generated decoding map — from_json raises KeyError for it (or silently decodes it as the catch-all class)")
+}
+
+// c11EncoderTruthiness: in the Python runtime encoder, the result of a to_json() call is never tested for truthiness:
+// an object whose properties are all optional and unset encodes to {} — which is falsy.
+var pyAssignFromToJSON = regexp.MustCompile(`^\s*([A-Za-z_][A-Za-z0-9_]*)\s*=\s*.*to_json\w*\(`)
+
+func c11EncoderTruthiness(ctx *Ctx, r *Report) {
+	ts, err := loadTemplates(ctx, "python")
+	if err != nil {
+		r.Undecided("cannot parse python templates: %v", err)
+		return
+	}
+	tree := ts.trees["runtime/encoder.tmpl"]
+	if tree == nil {
+		r.Undecided("anchor lost: python runtime/encoder.tmpl")
+		return
+	}
+	src := tmplText(tree.Root)
+	vars := map[string]bool{}
+	for _, line := range strings.Split(src, "\n") {
+		if m := pyAssignFromToJSON.FindStringSubmatch(line); m != nil {
+			vars[m[1]] = true
+		}
+	}
+	bad := ""
+	for i, line := range strings.Split(src, "\n") {
+		t := strings.TrimSpace(line)
+		for v := range vars {
+			for _, pat := range []string{"if " + v + ":", "if not " + v + ":", "elif " + v + ":", "return " + v + " or ", "if " + v + " and", "while " + v + ":"} {
+				if strings.HasPrefix(t, pat) {
+					bad = fmt.Sprintf("line %d tests the truthiness of %s, which holds the result of to_json()", i+1, v)
+				}
+			}
+		}
+		if strings.Contains(t, "to_json() or ") || strings.Contains(t, "to_json() and ") {
+			bad = fmt.Sprintf("line %d tests the truthiness of a to_json() result", i+1)
+		}
+	}
+	hasReturn := strings.Contains(src, "to_json")
+	r.Check(bad == "" && hasReturn, "skeleton/encoder-total", "python runtime encoder returns to_json() results as they are", token.NoPos, "no truthiness test on a to_json() result",
+		"python runtime/encoder.tmpl: "+bad+": an object with only unset optional properties encodes to {} (falsy), so the encoder falls through to the base class and raises `TypeError: … is not JSON serializable`")
+}
+
+// c11ComprehensionVar: the dict comprehension emitted for a map takes its loop variable from the nesting depth: a
+// constant name would be shadowed by the comprehension of a nested map, whose value expression indexes every level.
+func c11ComprehensionVar(ctx *Ctx, r *Report) {
+	p := ctx.Pkg("internal/jennies/python")
+	if p == nil {
+		return
+	}
+	var fd *ast.FuncDecl
+	for _, f := range p.Syntax {
+		for _, d := range f.Decls {
+			if x, ok := d.(*ast.FuncDecl); ok && x.Name.Name == "fromJSONForTypeRec" {
+				fd = x
+			}
+		}
+	}
+	if fd == nil {
+		return
+	}
+	n := 0
+	ast.Inspect(fd.Body, func(m ast.Node) bool {
+		lit, ok := m.(*ast.BasicLit)
+		if !ok || lit.Kind != token.STRING {
+			return true
+		}
+		v := strings.Trim(lit.Value, "`\"")
+		i := strings.Index(v, " for ")
+		if i < 0 || !strings.HasPrefix(v, "{") {
+			return true
+		}
+		n++
+		rest := v[i+5:]
+		r.Check(strings.HasPrefix(rest, "%"), "skeleton/comprehension-var-fresh", "python fromJSONForTypeRec dict comprehension", lit.Pos(), "the loop variable is a parameter of the format (it depends on the nesting depth)",
+			"the dict comprehension emitted for maps hard-codes its loop variable (`"+strings.SplitN(rest, " ", 2)[0]+"`): for a map of maps the inner comprehension shadows it and its value expression indexes both levels with the inner key — KeyError on any accepted document")
+		return true
+	})
+	r.Count("dict comprehensions emitted by the python from_json generator", n)
+	r.Floor("dict comprehensions emitted by the python from_json generator", 1)
+}
